@@ -73,17 +73,51 @@ fn measured<T>(f: impl FnOnce() -> T) -> (T, usize, usize) {
 // ------------------------------------------------------------------------------------------------
 // a hand-rolled executor and an AsyncRead over a byte vector whose position can be observed
 
+thread_local! {
+    /// polls granted to one future (raised for long inputs delivered in small chunks with spurious wake-ups)
+    static POLL_BUDGET: std::cell::Cell<usize> = std::cell::Cell::new(4096);
+    /// set when an async script gave different answers under different delivery schedules
+    static CHUNK_DIFF: std::cell::RefCell<Option<String>> = std::cell::RefCell::new(None);
+}
+
 fn block_on<F: Future>(f: F) -> Option<F::Output> {
     let mut f = Box::pin(f);
     let mut cx = Context::from_waker(Waker::noop());
-    for _ in 0..4096 { if let Poll::Ready(x) = f.as_mut().poll(&mut cx) { return Some(x); } }
+    for _ in 0..POLL_BUDGET.with(|b| b.get()) { if let Poll::Ready(x) = f.as_mut().poll(&mut cx) { return Some(x); } }
     None
 }
 
-struct SliceRead { data: Vec<u8>, pos: Arc<AtomicUsize>, chunk: usize }
+/// delivery schedules every async script is run under: (bytes per read, a Pending before every read)
+const SCHEDULES: [(usize, bool); 4] = [(usize::MAX, false), (1, false), (3, true), (4093, true)];
+
+/// run `f` under every schedule; the answer is the one of the first schedule (everything at once), a different answer under
+/// another schedule is recorded for the oracle (C07 / C09 / C12: the outcome must not depend on how the stream delivers the bytes)
+fn under_schedules<T: PartialEq + std::fmt::Debug>(input: &[u8], mut f: impl FnMut(SliceRead, &Arc<AtomicUsize>) -> T) -> T {
+    let mut first: Option<T> = None;
+    for (chunk, pend) in SCHEDULES {
+        if first.is_some() && input.len() > 20000 && chunk < 1000 { continue; }
+        POLL_BUDGET.with(|b| b.set(4096 + 4 * input.len()));
+        let pos = Arc::new(AtomicUsize::new(0));
+        let rd = SliceRead { data: input.to_vec(), pos: pos.clone(), chunk, pend, flip: false };
+        let r = f(rd, &pos);
+        POLL_BUDGET.with(|b| b.set(4096));
+        match &first {
+            None => first = Some(r),
+            Some(a) => if *a != r {
+                let msg = format!("chunk={} pending={}: {:?} but all at once: {:?}", chunk, pend, r, a);
+                CHUNK_DIFF.with(|c| { let mut c = c.borrow_mut(); if c.is_none() { *c = Some(msg.chars().take(400).collect()); } });
+            }
+        }
+    }
+    first.unwrap()
+}
+
+pub struct SliceRead { data: Vec<u8>, pos: Arc<AtomicUsize>, chunk: usize, pend: bool, flip: bool }
 impl tokio::io::AsyncRead for SliceRead {
     fn poll_read(self: Pin<&mut Self>, _cx: &mut Context<'_>, buf: &mut tokio::io::ReadBuf<'_>) -> Poll<std::io::Result<()>> {
         let me = self.get_mut();
+        if me.pend && !me.flip { me.flip = true; return Poll::Pending; }
+        me.flip = false;
         let p = me.pos.load(Relaxed);
         let n = buf.remaining().min(me.data.len() - p).min(me.chunk);
         buf.put_slice(&me.data[p..p + n]);
@@ -212,13 +246,14 @@ pub fn run_script(p: SP, input: &[u8], script: &[ReadStep]) -> ScriptOut {
             ScriptOut { items, rem: b.len().wrapping_sub(idx), err, hung: false }
         }
         SP::ABin | SP::ACmp => {
-            let pos = Arc::new(AtomicUsize::new(0));
-            let rd = SliceRead { data: input.to_vec(), pos: pos.clone(), chunk: usize::MAX };
-            let mut items = vec![];
-            let mut err = None;
-            let done = if p == SP::ABin { let mut pr = TAsyncBinaryProtocol::new(rd); run_async(&mut pr, &pos, script, &mut items, &mut err) }
-                       else { let mut pr = TAsyncCompactProtocol::new(rd); run_async(&mut pr, &pos, script, &mut items, &mut err) };
-            ScriptOut { items, rem: input.len() - pos.load(Relaxed), err, hung: !done }
+            let (items, rem, err, hung) = under_schedules(input, |rd, pos| {
+                let mut items = vec![];
+                let mut err = None;
+                let done = if p == SP::ABin { let mut pr = TAsyncBinaryProtocol::new(rd); run_async(&mut pr, pos, script, &mut items, &mut err) }
+                           else { let mut pr = TAsyncCompactProtocol::new(rd); run_async(&mut pr, pos, script, &mut items, &mut err) };
+                (items, input.len() - pos.load(Relaxed), err, !done)
+            });
+            ScriptOut { items, rem, err, hung }
         }
     }
 }
@@ -278,10 +313,11 @@ fn skip_field(p: SP, input: &[u8], k: usize) -> Result<(Option<usize>, Option<us
             r.map(|x| (x, b.len().wrapping_sub(idx)))
         }
         SP::ABin | SP::ACmp => {
-            let pos = Arc::new(AtomicUsize::new(0));
-            let rd = SliceRead { data: input.to_vec(), pos: pos.clone(), chunk: usize::MAX };
-            let r = if p == SP::ABin { let mut pr = TAsyncBinaryProtocol::new(rd); block_on(asyn(&mut pr, k, &pos)) } else { let mut pr = TAsyncCompactProtocol::new(rd); block_on(asyn(&mut pr, k, &pos)) };
-            match r { Some(r) => r.map(|x| (x, input.len() - pos.load(Relaxed))), None => return Err("hung") }
+            let r = under_schedules(input, |rd, pos| {
+                let r = if p == SP::ABin { let mut pr = TAsyncBinaryProtocol::new(rd); block_on(asyn(&mut pr, k, pos)) } else { let mut pr = TAsyncCompactProtocol::new(rd); block_on(asyn(&mut pr, k, pos)) };
+                match r { Some(r) => Some(r.map(|x| (x, input.len() - pos.load(Relaxed))).map_err(|e| err_class(&e))), None => None }
+            });
+            match r { Some(Ok(x)) => return Ok((x.0.0, x.0.1, x.0.2, x.1)), Some(Err(c)) => return Err(c), None => return Err("hung") }
         }
     };
     match r { Ok(((c, m, s), rem)) => Ok((c, m, s, rem)), Err(e) => Err(err_class(&e)) }
@@ -291,6 +327,13 @@ fn skip_field(p: SP, input: &[u8], k: usize) -> Result<(Option<usize>, Option<us
 fn alloc_bound(input_len: usize) -> usize { 512 * input_len + (256 << 10) }
 
 pub fn exec(verb: &str, items: &[Sexp], o: &mut Oracle) -> Option<String> {
+    CHUNK_DIFF.with(|c| *c.borrow_mut() = None);
+    let r = exec_inner(verb, items, o);
+    if let Some(d) = CHUNK_DIFF.with(|c| c.borrow_mut().take()) { o.fail("C07,C09,C12", format!("async outcome depends on the delivery schedule: {}", d)); }
+    r
+}
+
+fn exec_inner(verb: &str, items: &[Sexp], o: &mut Oracle) -> Option<String> {
     let a = |i: usize| items.get(i).and_then(|x| x.atom());
     Some(match verb {
         "skv" => {
@@ -353,6 +396,29 @@ pub fn exec(verb: &str, items: &[Sexp], o: &mut Oracle) -> Option<String> {
                     if k < fields.len() && count.is_none() { o.fail("C07", "field was not skipped".into()); }
                 }
                 Err(c) => o.fail("C07", format!("decoding a well-formed struct while skipping field {} failed: {}", k, c)),
+            }
+            match r {
+                Ok((count, _, got, rem)) => format!("ok {} {} rem={}", count.map(|c| c.to_string()).unwrap_or("-".into()), got, rem),
+                Err(c) => c.to_string(),
+            }
+        }
+        "skfx" => {
+            // the same on GIVEN bytes (a reference encoding of the struct in any of its legal forms): a reader that knows every field
+            // but number k decodes spec-conforming bytes to the value without that field
+            let (Some(p), Some(v), Some(k), Some(e)) = (a(1).and_then(SP::of), items.get(2).and_then(Val::of_sexp), a(3).and_then(|x| x.parse::<usize>().ok()), a(4).and_then(unhex)) else { return Some("bad-request".into()) };
+            let Val::Struct(fields) = &v else { return Some("bad-request".into()) };
+            let r = skip_field(p, &e, k);
+            let mut want: Vec<(i16, Val)> = fields.clone();
+            if k < want.len() { want.remove(k); }
+            let want = Val::Struct(want);
+            let want = if p.compact() { want.norm_compact().sexp() } else { want.sexp() };
+            match &r {
+                Ok((count, moved, got, rem)) => {
+                    if *got != want { o.fail("C03,C07", format!("reference bytes, field {} skipped: the struct read as {} expected {}", k, got, want)); }
+                    if *rem != 0 { o.fail("C03,C07", format!("{} bytes left after the struct", rem)); }
+                    if let (Some(c), Some(m)) = (count, moved) { if c != m { o.fail("C07", format!("skip reported {} but the reader moved {} bytes", c, m)); } }
+                }
+                Err(c) => o.fail("C03,C07", format!("decoding reference bytes of a struct while skipping field {} failed: {}", k, c)),
             }
             match r {
                 Ok((count, _, got, rem)) => format!("ok {} {} rem={}", count.map(|c| c.to_string()).unwrap_or("-".into()), got, rem),
@@ -539,6 +605,19 @@ pub fn gen(stream: &str, tier: &str, seed: u64, out: &mut dyn Write) -> bool {
                         for b in [0i32, 1, *d as i32, *d as i32 + 1, *d as i32 + 2, 127, -1] { if b <= 127 { emit_skv(out, p, Some(b), &v, None, trails[1]); } }
                     }
                 }
+            } }
+            // element counters: containers of non-fixed-size elements around 2^8 and 2^16 elements (2^15 map entries).  The big ones
+            // are oracle-only (count reported = bytes moved = encoded length, the value behind is read back): their request lines use
+            // the harness's repeat shorthand and the model is not asked
+            for cnt in [255usize, 256, 257] { for p in SP::ALL {
+                emit_skv(out, p, None, &Val::List(TT::Binary, vec![Val::Bin(vec![]); cnt]), Some(&follow[1]), trails[1]);
+                emit_skv(out, p, None, &Val::Map(TT::I8, TT::Struct, vec![(Val::I8(1), Val::Struct(vec![])); cnt]), Some(&follow[0]), trails[0]);
+            } }
+            for cnt in [65535usize, 65536, 65537] { for p in SP::ALL {
+                let _ = writeln!(out, "skv {} - (replist binary {} (bin -)) {} {} oracle-only", p.name(), cnt, follow[1].sexp(), hex(trails[1]));
+                let _ = writeln!(out, "skv {} - (replist struct {} (struct)) {} - oracle-only", p.name(), cnt, follow[0].sexp());
+                let _ = writeln!(out, "skv {} - (repmap i8 binary {} (i8 1) (bin 61)) {} - oracle-only", p.name(), cnt / 2, follow[0].sexp());
+                let _ = writeln!(out, "skv {} - (struct (1 (replist list {} (list bool))) (2 (i32 5))) {} - oracle-only", p.name(), cnt, follow[0].sexp());
             } }
             // leaves with explicit budgets
             for p in SP::ALL { for b in [0, 1, 2, 127] { emit_skv(out, p, Some(b), &Val::I64(5), Some(&follow[0]), trails[1]); emit_skv(out, p, Some(b), &Val::Struct(vec![]), None, trails[0]); } }
